@@ -58,7 +58,7 @@ CLAIMED = {
     "C06": {
         "text": "Lean 4 theorems (Props/C06.lean) prove, for every table, header/limit setting, column and check list and starting state: continue = accepted rows "
                 "of yield (same final state and calls), raise = rows before the first rejection of yield then that same error, yield has exactly one event per data "
-                "row in order located at its line, accepted+rejected = number of data rows, a container fault ends every mode with a data-format error. "
+                "row in order located at its line, accepted+rejected = number of data rows, a container fault ends every mode with a data-format error and changes nothing before it is reached (C06_fault_transparent: same events, calls, counters and check states as without it). "
                 "Tied to /repo by running all three modes through Reader and cutplace.rows on generated CIDs/tables with and without faults.",
         "note": "Trusted: Lean kernel; readLoop as transcription of Reader.rows (correspondence); container faults are injected as unterminated quote / short record "
                 "after the last row only.",
